@@ -47,6 +47,11 @@ def programs(ctx):
             fut2 = {'part': part, 'head': ('norm', 'c', 1), 'body': [('p', ('patom', 'b', 0))]}
             for order in ([neg, ch, fut], [fut, ch, neg], [ch, neg, fut], [nfut, ch, fut2], [fut2, ch, nfut], [neg, nfut, ch, fut2]):
                 progs.append(('sign-order', order))
+            # ... a classically negated atom as the LAST atom before the future head (a fact; the last body literal of the rule before it)
+            nfact = {'part': 'always', 'head': ('norm', '-c', 0), 'body': []}
+            nlast = {'part': 'always', 'head': ('norm', 'c', 0), 'body': [('p', ('patom', 'b', 0)), ('n', ('patom', '-a', 0))]}
+            for order in ([ch, nfact, fut], [ch, nlast, fut], [ch, nfact, nfut], [ch, fut, nfact], [ch, nlast, nfut, nfact, fut2]):
+                progs.append(('sign-order', order))
     # fixed family: one predicate NAME as a future head with several arities, argument lists and classical signs (a future predicate is a name, an arity AND a sign)
     for part in ('initial', 'always', 'dynamic'):
         ch = {'part': 'always', 'head': ('choice', ['q', 'r']), 'body': []}
